@@ -53,13 +53,17 @@ func (d *PathDecoder) tokensForBody(ctx context.Context, body *hclsyntax.Body, b
 	}
 
 	for name, attr := range body.Attributes {
-		attrSchema, ok := bodySchema.Attributes[name]
-		if !ok {
-			if bodySchema.Extensions != nil && name == "count" && bodySchema.Extensions.Count {
-				attrSchema = schemahelper.CountAttributeSchema()
-			} else if bodySchema.Extensions != nil && name == "for_each" && bodySchema.Extensions.ForEach {
-				attrSchema = schemahelper.ForEachAttributeSchema()
-			} else {
+		// an enabled extension precedes a declared attribute of the same name
+		// (as it does in hover, completion, reference collection and validation)
+		var attrSchema *schema.AttributeSchema
+		if bodySchema.Extensions != nil && name == "count" && bodySchema.Extensions.Count {
+			attrSchema = schemahelper.CountAttributeSchema()
+		} else if bodySchema.Extensions != nil && name == "for_each" && bodySchema.Extensions.ForEach {
+			attrSchema = schemahelper.ForEachAttributeSchema()
+		} else {
+			var ok bool
+			attrSchema, ok = bodySchema.Attributes[name]
+			if !ok {
 				if bodySchema.AnyAttribute == nil {
 					// unknown attribute
 					continue
